@@ -137,7 +137,7 @@ theorem upperStr_length (U : UnicodeOps) (hU : U.AsciiCorrect) {s : Str} (h : Id
 theorem applyAcronym' (U : UnicodeOps) (hU : U.AsciiCorrect) (name a : Str) (ha : IdentStr a) (res : Str)
     (hres : lay res = lay name) (hv : VarStr res name) :
     ∃ r, applyAcronym U name res a = .ok r ∧ lay r = lay name ∧ VarStr r name := by
-  have hpat := toPascal_ident ha
+  have hpat := toPascal_ident (U := U) ha
   unfold applyAcronym
   exact foldlM_acronym' U name _ _ hpat (upperStr_ident U hU hpat) (upperStr_length U hU hpat) _
     (fun i hi => mem_matchIndices name _ i hi) res hres hv
@@ -431,7 +431,7 @@ theorem writeAlias_nb' (a : RustTypeAlias) (ha : AliasOk a) (st : Imports) (text
 
 omit hU in
 theorem writeConst_nb' (c : RustConst) (hc : ConstScope c) (st : Imports) (text : Str) (st' : Imports)
-    (h : writeConst cfg c st = .ok (text, st')) : NB G text := by
+    (h : writeConst U cfg c st = .ok (text, st')) : NB G text := by
   unfold writeConst constFacts at h
   obtain ⟨d, st1, hd, h⟩ := obind_pair_ok h
   cases h
@@ -600,7 +600,7 @@ theorem writeItem_nb' (cs : List Str) (it : RustItem) (hs : GoF.ItemOk it) (st :
   | struct s => exact writeStruct_nb' U hU H s hs st text st' h
   | «enum» e => exact writeEnum_nb' U hU H e hs cs st text st' h
   | alias a => exact writeAlias_nb' U hU H a hs st text st' h
-  | const c => exact writeConst_nb' H c hs st text st' h
+  | const c => exact writeConst_nb' U H c hs st text st' h
 
 theorem generate_nb' (hf : GoF.FileOk cfg) (d : ParsedData)
     (hitems : ∀ it ∈ TsV.C12L.itemsOf d, GoF.ItemOk it) (st0 : Imports) (h0 : GoF.StOk st0) (text : Str) (st : Imports)
